@@ -70,7 +70,12 @@ def run_rules(ctx, res):
     res.rule(N4, "closure: `continue` only under contains(item); implied look-aheads = FIRST(symbols after the advanced dot), plus the item's own look-ahead iff that FIRST set contains epsilon")
     res.rule(N5, "for each symbol right of a dot in the expanded state (unfiltered) a Transition { from: that state, to: result of merge-or-enqueue of closure(advance), symbol } is inserted")
     mir = Mir(ctx["facts"]["mir"])
-    stage = fns_in(mir, "/validated_ast_to_machine/")
+    # the construction stage = everything reachable from the function (validated file) -> automaton, wherever it lives
+    # (a helper moved into the data layer or another file is still part of it); the directory is only the fallback
+    from ..roles import roles_of
+    R = roles_of(mir)
+    stage = R.stage_fns("stage_machine") or fns_in(mir, "/validated_ast_to_machine/")
+    stage = sorted(stage, key=lambda f_: f_.key)
     res.floor("functions of the automaton construction stage", len(stage), 30)
     by_name = {}
     for f in stage:
@@ -145,7 +150,8 @@ def run_rules(ctx, res):
                 res.violate(N1, "inclusion-test", sub.where, "core inclusion must be `all items of a have some item of b with equal rule index and equal dot` (exactly these two fields, never the look-ahead); found `%s` comparing %s" % (subret[:140], sorted(cmp_fields)))
 
     # ---- N2
-    first = fns_in(mir, "first_set_map.rs")
+    first = R.stage_fns("first_sets_entry") or fns_in(mir, "first_set_map.rs")
+    first = sorted(first, key=lambda f_: f_.key)
     flagty = None
     accum = None
     for f in first:
